@@ -4,6 +4,8 @@ import QuiverModel.Core.Types.Narrow
 import QuiverModel.Core.Types.Shape
 import QuiverModel.Lemmas.Types.SoundMain
 import QuiverModel.Lemmas.Types.Overlap
+import QuiverModel.Lemmas.Types.Extend
+import QuiverModel.Lemmas.Types.Meet
 /-
 C09 — Assignability implies containment; overlap detection is complete; narrowing never drops a
 value that can occur.
@@ -242,23 +244,47 @@ def CompatTransStatement : Prop :=
     isCompatible T fuel a b = some true → isCompatible T fuel b c = some true →
     ∃ fuel', isCompatible T fuel' a c = some true
 
-/-- narrowing never drops a value that can occur — statements on first-order types (NOT proved
-here: they need the table-extension invariants of `intersect` / `complement`; the harness
-evaluates them on the implementation's results for every sampled pair — no first-order failure in
-any run — and on recursive types they are false, see notes/C09.md R3) -/
-def IntersectKeepsStatement : Prop :=
-  ∀ (T T' : Table) (rf fuel a b r : Nat), Ordered T → FO T a → FO T b →
-    intersect rf fuel T a b = some (T', r) →
-    ∀ v, v.wf = true → inh T [] a v → inh T [] b v → inh T' [] r v
+/-- **Intersection never drops a value** (`intersect_types`, first-order operands; any table, any
+fuels): a well-labelled value of both operands is a value of the result, read in the table the
+function returns; that table only extends the old one and the result is first-order again. The
+fallback `types_overlap(a, b) ? a : never` is justified by `overlap_complete_fo`. -/
+theorem intersect_keeps (T T' : Table) (rf fuel a b r : Nat) (ha : FO T a) (hb : FO T b)
+    (h : intersect rf fuel T a b = some (T', r)) :
+    ∀ v, v.wf = true → inh T [] a v → inh T [] b v → inh T' [] r v :=
+  (intersect_ok rf fuel T a b ha hb T' r h).2.2
 
+theorem intersect_extends (T T' : Table) (rf fuel a b r : Nat) (ha : FO T a) (hb : FO T b)
+    (h : intersect rf fuel T a b = some (T', r)) : Table.Sub T T' ∧ FO T' r :=
+  ⟨(intersect_ok rf fuel T a b ha hb T' r h).1, (intersect_ok rf fuel T a b ha hb T' r h).2.1⟩
+
+/-- non-trivial instance: `(x: int) & (y: int)` (the spec's `'rw`) keeps `[x: 1, y: 2]` -/
+example : ∃ T' r, intersect 16 8 tF15 2 3 = some (T', r) ∧ inh T' [] r vF15 := by
+  cases h : intersect 16 8 tF15 2 3 with
+  | none => exact absurd h (by decide)
+  | some p =>
+    exact ⟨p.1, p.2, rfl, intersect_keeps tF15 p.1 16 8 2 3 p.2 ⟨3, by decide⟩ ⟨3, by decide⟩ h vF15
+      (by decide) ⟨4, by decide⟩ ⟨4, by decide⟩⟩
+
+/-- narrowing by subtraction never drops a value that can occur — statement on first-order types
+(NOT proved here: it needs, on top of the table-extension invariants used for `intersect_keeps`,
+that `contains_cycle` is `false` on first-order types and that a `true` overlap verdict on two tuple
+types forces equal labels; the harness evaluates it on the implementation's result for every sampled
+pair — no first-order failure in any run — and on recursive types it is false, see notes/C09.md R3) -/
 def ComplementKeepsStatement : Prop :=
   ∀ (T T' : Table) (rf fuel a b r : Nat), Ordered T → FO T a → FO T b →
     complement rf fuel T a b = some (T', r) →
     ∀ v, v.wf = true → inh T [] a v → ¬ inh T [] b v → inh T' [] r v
 
-def UnionFlattenStatement : Prop :=
-  ∀ (T : Table) (ids : List Nat), Ordered T → (∀ i ∈ ids, FO T i) →
-    ∀ v, inh (unionIds T ids).1 [] (unionIds T ids).2 v ↔ ∃ i ∈ ids, inh T [] i v
+/-- **`union_type_ids` is sound and complete** (first-order arguments): the id it returns, read in
+the table it returns, has exactly the values of the arguments — flattening one level of unions,
+de-duplicating, collapsing a single id and registering `never` for none change nothing. Registration
+only appends, and a first-order type means the same in the larger table (`FO.inh_sub`). -/
+theorem union_flatten_sound (T : Table) (ids : List Nat) (hfo : ∀ i ∈ ids, FO T i) (v : V) :
+    inh (unionIds T ids).1 [] (unionIds T ids).2 v ↔ ∃ i ∈ ids, inh T [] i v :=
+  unionIds_sem T ids hfo v
+
+example : (unionIds tF12 [2, 0, 1]).2 = 2 ∧ ∀ i ∈ [2, 0, 1], FO tF12 i :=
+  ⟨by decide, by intro i hi; simp at hi; rcases hi with rfl | rfl | rfl <;> exact ⟨3, by decide⟩⟩
 
 /-- overlap detection is complete (full statement) -/
 def OverlapCompleteStatement : Prop :=
